@@ -1009,6 +1009,9 @@ package fsutil
 //@   at call tar.Writer.WriteHeader: file_name: !fi.IsDir() ==> arg1.Name == filepath.ToSlash(path)
 //@   at call tar.Writer.WriteHeader: owner_and_device: arg1.Uid == int(stat.Uid) && arg1.Gid == int(stat.Gid) && arg1.Devmajor == stat.Devmajor && arg1.Devminor == stat.Devminor && arg1.Linkname == stat.Linkname
 //@   at call tar.Writer.WriteHeader: link_member: stat.Linkname != "" ==> arg1.Size == 0 && arg1.Typeflag == ite(fi.Mode() & os.ModeSymlink != 0, tar.TypeSymlink, tar.TypeLink)
+// the archived mtime is the view's mtime cut to whole seconds - never later than it (F41: archive/tar
+// rounds a fractional time to the NEAREST second, so the header must carry whole seconds already)
+//@   at call tar.Writer.WriteHeader: mtime_floor_seconds: arg1.ModTime.UnixNano() % 1000000000 == 0 && arg1.ModTime.UnixNano() <= fi.ModTime().UnixNano() && fi.ModTime().UnixNano() - arg1.ModTime.UnixNano() < 1000000000
 //@   at call FS.Open: payload_only_for_content: hdr.Typeflag == tar.TypeReg && hdr.Size > 0 && hdr.Linkname == "" && cnt(TarHeader) == old(cnt(TarHeader)) + 1 && ptr(ref(arg(TarHeader, 0)), tar.Header) == hdr
 //@   ensures header_once: result == nil ==> cnt(TarHeader) == old(cnt(TarHeader)) + 1
 //@   ensures atmost: cnt(TarHeader) <= old(cnt(TarHeader)) + 1 && cnt(FsOpen) <= old(cnt(FsOpen)) + 1
